@@ -8,7 +8,7 @@ import ECAgent.Environments as Envs
 from ECAgent.Core import Agent, AgentNotFoundError, DuplicateAgentError, Model
 from ECAgent.Environments import DiscreteWorld, GridWorld, LineWorld, SpaceWorld, PositionComponent
 from vf.engine import Violation, InvalidCase
-from vf.fixtures import CompA, CompB, CompC, check, sized_lists
+from vf.fixtures import CompA, CompB, CompC, check, sized_lists, wone_of
 
 PROPERTY = "C04"
 LEVEL = "fault_enumeration"
@@ -280,8 +280,8 @@ def _fmt(v):
 
 
 def strategy(tier):
-    ext0 = lambda hi: st.one_of(st.just(0), st.integers(1, hi))
-    env = st.one_of(
+    ext0 = lambda hi: wone_of(st.just(0), st.integers(1, hi))
+    env = wone_of(
         st.just({"kind": "plain"}),
         st.builds(lambda a, b, c, w: {"kind": "space", "ext": [a, b, c], "wrap": w}, st.sampled_from([0, 8, 20, 40, 64]),
                   st.sampled_from([0, 8, 12, 40]), st.sampled_from([0, 8, 24]), st.booleans()),
@@ -292,7 +292,7 @@ def strategy(tier):
     pos = st.fixed_dictionaries({"mode": st.sampled_from(["in", "in", "in", "edge", "oob"]), "axis": st.integers(0, 2),
                                  "side": st.integers(0, 1), "far": st.sampled_from([0, 0, 1, 1000]),
                                  "f": st.tuples(st.integers(0, 70), st.integers(0, 70), st.integers(0, 70)).map(list)})
-    op = st.one_of(st.fixed_dictionaries({"op": st.just("add"), "o": st.integers(0, 6), "pos": pos}),
+    op = wone_of(st.fixed_dictionaries({"op": st.just("add"), "o": st.integers(0, 6), "pos": pos}),
                    st.fixed_dictionaries({"op": st.just("add"), "o": st.integers(0, 6), "pos": pos}),
                    st.fixed_dictionaries({"op": st.just("add"), "o": st.integers(0, 3), "pos": pos}),
                    st.fixed_dictionaries({"op": st.just("add"), "o": st.integers(0, 3), "pos": st.just({"mode": "in", "f": [1, 2, 3]})}),
@@ -301,4 +301,4 @@ def strategy(tier):
                    st.fixed_dictionaries({"op": st.just("remove"), "k": st.integers(0, 3)}),
                    st.fixed_dictionaries({"op": st.just("get"), "id": st.integers(0, 4), "strict": st.booleans()}))
     return st.fixed_dictionaries({"env": env, "objs": st.lists(st.integers(0, 7), min_size=7, max_size=7),
-                                  "ops": st.one_of(sized_lists(op, 1, 30), sized_lists(op, 6, 20))})
+                                  "ops": wone_of(sized_lists(op, 1, 30), sized_lists(op, 6, 20))})
